@@ -67,7 +67,7 @@ func DrawScenario(t *Tape, property string) (*Scenario, Config) {
 	drawEvents(t, sc)
 	sc.HashCompat = t.Next(2) == 1
 
-	cfg := Config{MaxSteps: 6000, MaxSimTime: 2 * time.Hour, PreemptPermyr: 2000}
+	cfg := Config{MaxSteps: 40000, MaxSimTime: 2 * time.Hour, PreemptPermyr: 2000}
 	cfg.Interleave = t.Next(2) == 1
 	switch t.Next(3) {
 	case 0:
